@@ -118,10 +118,13 @@ class Ctx:
         for p in list(self.pools):
             p._drain()
 
-    def reset_pools(self):
+    def reset_pools(self, keep_pathos_cache=False):
         for p in list(self.pools):
             p._shutdown()
         self.pools = []
+        if not keep_pathos_cache:
+            from .forkpool import pathos_clear
+            pathos_clear(self)
 
 
 # ============================================================================ audit hook
